@@ -7,6 +7,7 @@ from functools import reduce
 from itertools import count
 from types import CodeType, FunctionType
 
+from . import _verif
 from .utils import MISSING, NameDatabase, Unusable, UsageError, subtler_type
 
 recurse = Unusable(
@@ -563,6 +564,8 @@ def recode(fn, ovld, recurse_sym, call_next_sym, newname):
         new = closure_wrap(new.body[0], "irrelevant", fn.__code__.co_freevars)
     ast.fix_missing_locations(new)
     ast.increment_lineno(new, fn.__code__.co_firstlineno - 1)
+    if _verif.ENABLED:
+        _verif.emit("recode", fn=fn, tree=new)
     res = compile(new, mode="exec", filename=fn.__code__.co_filename)
     if fn.__closure__:
         res = [x for x in res.co_consts if isinstance(x, CodeType)][0]
